@@ -325,9 +325,67 @@ def clamp_rule(chk, db):
             if not ok:
                 chk.violation("CLAMP", construct, "clamp-other-object", "%s: the test measures what is left of `%s` but the length is replaced by the "
                               "size of `%s`" % (astx.loc(f, x), measured, rr), {"where": astx.loc(f)})
-    if n < 1:
-        # the clamps may legitimately be gathered in one helper; none at all means the rule lost its subject
-        chk.analysis_broken("CLAMP: no length clamp found in basic_inplace_string")
+    # second form: the length handed to `view(O).substr(p, L)` mentions only sizes of O itself (whatever the clamp's spelling:
+    # conditional, etl::min, helper-free local); lengths that mention no size are left to substr's own clamp
+    nsub = 0
+    for f in db.funcs:
+        if f.get("record") != STRING or f.get("body") is None:
+            continue
+        local_init = {}
+        for st in astx.walk_stmts(f.get("body")):
+            if st.get("k") == "decl":
+                for v in st["vars"]:
+                    if v.get("init") is not None and "other" not in v:
+                        local_init[v["n"]] = v["init"]
+
+        def viewed(e, depth=0):
+            """name of the object a view expression looks at: 'this', a parameter name, or None"""
+            e = astx.strip_casts(e)
+            if e is None or depth > 3:
+                return None
+            if e.get("k") == "ref" and e["n"] in local_init and e.get("d") == "local":
+                return viewed(local_init[e["n"]], depth + 1)
+            if e.get("k") in ("construct", "cast", "initlist") and len(e.get("a", [])) == 1:
+                return viewed(e["a"][0], depth + 1)
+            if e.get("k") == "un" and e.get("op") == "*" and astx.is_this(astx.strip_casts(e["e"])):
+                return "this"
+            if e.get("k") == "ref" and e.get("d") == "param":
+                return e["n"]
+            return None
+
+        def sizes_in(e, depth=0, acc=None):
+            acc = set() if acc is None else acc
+            if e is None or depth > 3:
+                return acc
+            for y in astx.walk_expr(e):
+                if y.get("k") == "call" and astx.callee(y)[0] in ("size", "length") and astx.callee(y)[3] == "member" and not y["a"]:
+                    r = astx.strip_casts(astx.callee(y)[2])
+                    acc.add("this" if (r is None or astx.is_this(r)) else (r.get("n") if r.get("k") == "ref" else astx.show(r, 30)))
+                elif y.get("k") == "call" and astx.callee(y)[0] in ("size", "length") and not y["a"] and astx.callee(y)[3] != "member":
+                    acc.add("this")
+                elif y.get("k") == "ref" and y.get("d") == "local" and y["n"] in local_init:
+                    sizes_in(local_init[y["n"]], depth + 1, acc)
+            return acc
+        for x in astx.all_exprs(f):
+            if x.get("k") != "call" or astx.callee(x)[0] != "substr" or astx.callee(x)[3] != "member" or len(x["a"]) != 2:
+                continue
+            nsub += 1
+            o = viewed(astx.callee(x)[2])
+            if o is None:
+                continue
+            used = sizes_in(x["a"][1])
+            if not used:
+                continue
+            n += 1
+            construct = "%s :: %s" % (astx.sig(f), astx.show(x, 70))
+            chk.instance("CLAMP")
+            wrong = sorted(u for u in used if u != o)
+            chk.obligation("CLAMP", construct, not wrong)
+            if wrong:
+                chk.violation("CLAMP", construct, "clamp-other-object", "%s: the length of a substring of `%s` is computed from the size of `%s`" % (
+                    astx.loc(f, x), o, ", ".join(wrong)), {"where": astx.loc(f)})
+    if nsub < 1:
+        chk.analysis_broken("CLAMP: no substring of a view is formed in basic_inplace_string (the rule lost its subject)")
 
 
 META_EXTRA = "SLOTS-W / SLOTS-U (grown characters written; range writes below the size slot); POST (size postconditions); NULFREE (no NUL-sensitive routine reachable from counted operations, overloads selected by argument kind); EXIT (early exits of the searches vs the specification's feasibility predicate); CLAMP (length clamps measure one object); PARAM."
@@ -338,6 +396,11 @@ def run(chk, tier):
     db = D.load("checks")
     from ..rules import params as _PR
     _PR.check(chk, db, ['_string/basic_inplace_string', '_strings/find', '_strings/rfind'], floor=80)
+    from ..rules import iters as _ITX
+    _ITX.reverse_index_area(chk, db, ['_string/basic_inplace_string', '_strings/'])      # IT4i: downward index scans reach index 0
+    from ..rules import sibs as _SB
+    _SB.check(chk, db, ['_string/basic_inplace_string', '_strings/find', '_strings/rfind'])      # SIB: cv/ref-qualified overloads of one member agree
+    _SB.positive_control(chk)
     plain = D.load("plain")
     with open(c05.SPEC) as fh:
         table = json.load(fh)["entries"]
